@@ -165,6 +165,9 @@ META_VALUES = {
     "N1": {"k": "A", "sub": {"p": 1, "q": [1, 2]}},
     "N2": {"sub": {"q": [1, 2], "p": 1}, "k": "A"},
     "F": {"flag": False, "tag": "", "n": None},
+    # values whose JSON spelling differs from the Python object (tuple)
+    "T1": {"k": "A", "window": (0, 100)},
+    "T2": {"k": "A", "window": (0, 101)},
     # nested lists that are proper prefixes of one another
     "L1": {"k": "A", "seen": [7]},
     "L2": {"k": "A", "seen": [7, 9]},
@@ -228,7 +231,10 @@ def run_sequence(fmt: str, eps: int, seq: list, readers=("sync",)) -> dict:
                     if meta == "-":
                         arg = None
                     elif meta in META_VALUES:
-                        arg = json.loads(json.dumps(META_VALUES[meta]))
+                        # a fresh object per call; deepcopy keeps tuples
+                        # and the insertion order of the keys
+                        import copy
+                        arg = copy.deepcopy(META_VALUES[meta])
                     elif meta == "E":  # explicit empty dict
                         arg = {}
                     elif meta[0] == "N":
